@@ -131,14 +131,7 @@ class HistoryRun:
     def restore_pristine(self):
         """The simulated process starts every history from the configuration it was started with: a leak left behind by an
         earlier history (reported there, at its `after-unwind` step) must not make a later history's first step fail."""
-        g = self.config.get_config_global()
-        for i, f in enumerate(FIELDS):
-            want = self.global0[i]
-            if f == "validation_depth" and want is not None:
-                want = self.config.ValidationDepth[want]
-            if getattr(g, f) != want:
-                setattr(g, f, want)
-        self.config.reset_config_context()
+        restore_pristine()
 
     def run(self, node):
         self.restore_pristine()
@@ -261,9 +254,30 @@ def tree_depth(node):
     return 1 + max([tree_depth(c) for c in node["body"] if "opts" in c] or [0])
 
 
+_G0 = []
+
+
 def global0_tuple():
+    """The global configuration this process was started with (read once, before any history can have damaged it)."""
     from pandera import config
-    return cfg_tuple(config.get_config_global())
+    if not _G0:
+        _G0.append(cfg_tuple(config.get_config_global()))
+    return _G0[0]
+
+
+def restore_pristine():
+    """Put pandera.config back into the state the process started with (a leak left by an earlier history or scenario was
+    reported where it happened; it must not be charged to later ones, whose replay starts in a fresh process)."""
+    from pandera import config
+    g0 = global0_tuple()
+    g = config.get_config_global()
+    for i, f in enumerate(FIELDS):
+        want = g0[i]
+        if f == "validation_depth" and want is not None:
+            want = config.ValidationDepth[want]
+        if getattr(g, f) != want:
+            setattr(g, f, want)
+    config.reset_config_context()
 
 
 # ---------------------------------------------------------------------------------------------
@@ -298,6 +312,7 @@ def run_matrix(log, stats, vio):
     """(c)(i): every labelled case x 3 context depths (+ no context) x eager/lazy."""
     from pandera.config import ValidationDepth, config_context
     g0 = global0_tuple()
+    restore_pristine()
     n = 0
     for ci, (backend, container, name, level, kind, mk_s, mk_d) in enumerate(depthcases.all_cases()):
         for depth in ["SCHEMA_ONLY", "DATA_ONLY", "SCHEMA_AND_DATA", None]:
@@ -326,6 +341,7 @@ def run_matrix(log, stats, vio):
 def depth_equivalence(rng, log, stats, vio, keys):
     """(c)(ii): accept_SAD <=> accept_SO and accept_DO on a seeded scenario; polars defaults by container kind."""
     from pandera.config import ValidationDepth, config_context
+    restore_pristine()
     g = world.SpecGen(rng, want_callbacks=0.3, deny=("drop_invalid_rows", "name_collision", "custom_dtype"))
     spec = g.schema()
     try:
@@ -373,6 +389,7 @@ def run_one(seed, tier, idx):
     rng = kernel.derive(seed, PROP, idx)
     kernel.reseed_ambient(rng)
     log = kernel.EventLog()
+    global0_tuple()
     world.warm_registries()
     stats, vio, keys = {}, [], set()
     distinct_extra = 0
@@ -513,6 +530,7 @@ def replay(payload):
 
 def _replay_equiv(payload):
     from pandera.config import ValidationDepth, config_context
+    restore_pristine()
     spec, fr, lazy, pl_lazy = payload["spec"], payload["frame"], payload["lazy"], payload["pl_lazy"]
     subject = world.build_schema(spec)
     verdict = {}
